@@ -262,8 +262,8 @@ Proof. cbv zeta. repeat split; vm_compute; reflexivity. Qed.
 
 Example c16_nonvacuous_service :
   let p := mkSv 1 (2 ^ 62) [] (Some 999999999999999999) (Some 1000000000000000000) 1 1 1 1 true in
-  validate_sv p = Ok /\ sv_op_wf (SvBlocks [5000; 1]) /\ sv_op_wf (SvBind (2 ^ 200) 5 1 10 1)
-  /\ sv_path p (SvBlocks [5000; 1]) = Some Done /\ sv_path p (SvRespond 100 100) = Some Done
+  validate_sv p = Ok /\ sv_op_wf (SvBlocks [(1, 5000); (1, 5000); (2, 1)]) /\ sv_op_wf (SvBind (2 ^ 200) 5 1 10 1)
+  /\ sv_path p (SvBlocks [(1, 5000); (1, 5000); (2, 1)]) = Some Done /\ sv_path p (SvRespond 100 100) = Some Done
   /\ sv_path p (SvBind (2 ^ 200) 5 1 10 1) = Some Reject
   /\ sv_path p (SvUpdate true 0 10 5 1 100) = Some Done
   /\ sv_path p (SvRefund false 10 1000 1002) = Some Done /\ sv_path p (SvRefund false 10 1000 1001) = Some Reject
